@@ -1,0 +1,75 @@
+//go:build verif
+
+package parser2
+
+// Verification hook (add-only): exposes the token stream of a configured tokenizer.
+
+// VerifToken is a token as the tokenizer sent it: numeric type (tIdent=0 ... tInvalid=16), image, line.
+type VerifToken struct {
+	Typ   int
+	Image string
+	Line  int
+}
+
+func verifDrain(t *Tokenizer, max int) []VerifToken {
+	var res []VerifToken
+	for {
+		tok := t.Next()
+		if tok.typ == tEof {
+			return res
+		}
+		res = append(res, VerifToken{Typ: int(tok.typ), Image: tok.image, Line: int(tok.Line)})
+		if max > 0 && len(res) >= max {
+			// drain so that the tokenizer goroutine terminates
+			for t.Next().typ != tEof {
+			}
+			return res
+		}
+	}
+}
+
+// VerifTokenize runs a tokenizer configured exactly as Parser.Parse configures it
+// (simpleNumber / simpleIdentifier matchers, operator detector over the given operator list).
+func VerifTokenize(text string, operators []string, textOperators map[string]string, keyWords []string, comments, comfort bool) []VerifToken {
+	if textOperators == nil {
+		textOperators = map[string]string{}
+	}
+	t := NewTokenizer(text, simpleNumber, simpleIdentifier, NewOperatorDetector(operators)).
+		SetTextOperators(textOperators).
+		SetKeyWords(keyWords).
+		SetComments(comments).
+		SetComfort(comfort).
+		Start()
+	return verifDrain(t, 0)
+}
+
+// VerifTokenizerConfig returns what Parse hands to the tokenizer: the operator list of the detector
+// (binary operators, "=", "->", unary operators), text operators, keywords, comment and comfort flags.
+func (p *Parser[V]) VerifTokenizerConfig() (operators []string, textOperators map[string]string, keyWords []string, comments, comfort bool) {
+	operators = append(operators, p.operators...)
+	operators = append(operators, "=", "->")
+	for u := range p.unary {
+		operators = append(operators, u)
+	}
+	return operators, p.textOperators, p.keyWords, p.allowComments, p.comfort
+}
+
+// VerifTokens tokenizes str with the tokenizer Parse would start for this parser.
+func (p *Parser[V]) VerifTokens(str string) []VerifToken {
+	ops, to, kw, c, cf := p.VerifTokenizerConfig()
+	t := NewTokenizer(str, p.number, p.identifier, NewOperatorDetector(ops)).
+		SetTextOperators(to).
+		SetKeyWords(kw).
+		SetComments(c).
+		SetComfort(cf).
+		Start()
+	return verifDrain(t, 0)
+}
+
+// VerifLine returns the line stored in a parse error (0 if err carries none).
+func VerifLine(err error) int {
+	if e, ok := err.(errorWithLine); ok {
+		return int(e.line)
+	}
+	return 0
+}
